@@ -633,9 +633,7 @@ class Engine:
                    "(a hole in front of an aligned data word inside one section cannot be repaired by any hole-punching "
                    "relaxation)")
         only = ctx.only["case"]["id"] if ctx.only is not None else None
-        import os
-        skip = os.environ.get("C13_SKIP", "")
-        if ctx.only is None and "M" not in skip:
+        if ctx.only is None:
             model_check(ctx)
         n_struct, n_exec, n_ir = (700, 120, 60) if thorough else (60, 10, 6)
         jobs = directed_jobs()
@@ -653,8 +651,6 @@ class Engine:
                 jobs.append(j)
         if only is not None:
             jobs = [j for j in jobs if j["id"] == only]
-        if "T" in skip:
-            return
         traces, outs = [], {}
         outcomes, modes = {}, {}
         nrelaxed = 0
